@@ -35,6 +35,8 @@ pub(crate) mod c20;
 pub(crate) mod c18;
 #[path = "/verif/harness/d/c04.rs"]
 pub(crate) mod c04;
+#[path = "/verif/harness/d/c19_mrt.rs"]
+pub(crate) mod c19_mrt;
 
 #[cfg(osrg_rustybgp_verif_shuttle)]
 #[path = "/verif/harness/s/c18s.rs"]
@@ -112,6 +114,7 @@ pub(crate) fn verif_main(args: &[String]) -> i32 {
     let c18 = c18::Monitoring { prop: "C18" };
     let c19 = c18::Monitoring { prop: "C19" };
     let c04 = c04::BulkExport;
-    let checks: Vec<&dyn Check> = vec![&c08, &c01, &c10, &c13, &c07, &c07b, &c16, &c09, &c05, &c11, &c20, &c18, &c19, &c04];
+    let c19m = c19_mrt::MrtDumps;
+    let checks: Vec<&dyn Check> = vec![&c08, &c01, &c10, &c13, &c07, &c07b, &c16, &c09, &c05, &c11, &c20, &c18, &c19, &c19m, &c04];
     vcore::main_with(&checks, &plan, args)
 }
